@@ -379,3 +379,167 @@ Proof.
     destruct (expose fuel p' h5) as [u6 h6| |]; [|contradiction|exact I]. cbn. apply Hfin. exact He.
   - cbn. apply Hfin. apply rx_only_refl.
 Qed.
+
+(* ---- raise / lower / raise_to_front / lower_to_back: a request is appended to the queue --------------------- *)
+Lemma qchain_prefix_gen : forall h h' l0 v z l2 l3 cz',
+  qchain h v (l0 ++ z :: l2) ->
+  (forall a, In a l0 -> findq h' a = findq h a) ->
+  findq h' z = Some cz' -> qchain h' (q_next cz') l3 ->
+  qchain h' v (l0 ++ z :: l3).
+Proof.
+  intros h h' l0; induction l0 as [|x l0 IH]; intros v z l2 l3 cz' Hc Hkeep Hz Hc3; cbn in *.
+  - inversion Hc; subst. econstructor; eauto.
+  - inversion Hc as [|x' cx l' Hfx Hcx]; subst.
+    econstructor; [rewrite (Hkeep x (or_introl eq_refl)); exact Hfx|]. eapply IH; eauto.
+Qed.
+
+Lemma queue_last_spec : forall fuel h hd ql,
+  qchain h (Some hd) ql ->
+  match queue_last fuel hd h with
+  | Ok l h' => h' = h /\ exists ql0, ql = ql0 ++ [l]
+  | Fault _ _ => False
+  | NoFuel => True
+  end.
+Proof.
+  induction fuel as [|f IH]; intros h hd ql Hc; cbn; [exact I|].
+  inversion Hc as [|hd' c rest Hf Hrest]; subst.
+  unfold bind. rewrite (getq_run h hd c Hf).
+  destruct (q_next c) as [n|] eqn:Hn.
+  - specialize (IH h n rest Hrest). destruct (queue_last f n h) as [l h'| |]; auto.
+    destruct IH as [Eh [ql0 E]]. split; auto. exists (hd :: ql0). rewrite E. reflexivity.
+  - cbn. split; auto. inversion Hrest; subst. exists []. reflexivity.
+Qed.
+
+(* _get_root on a heap with the same windows as one that satisfies the invariant *)
+Lemma get_root_same_wins : forall D h h1 fuel w,
+  hinv D h -> wins h1 = wins h -> anc h w root ->
+  match get_root fuel w h1 with Ok r h2 => h2 = h1 /\ r = root | Fault _ _ => False | NoFuel => True end.
+Proof.
+  intros D h h1 fuel. induction fuel as [|f IH]; intros w HI Hw1 Hanc; cbn; [exact I|].
+  pose proof (anc_live_l h w root Hanc) as Hl. destruct (findw h w) as [c|] eqn:Hf; [|congruence].
+  assert (Hf1 : findw h1 w = Some c) by (unfold findw in *; rewrite Hw1; exact Hf).
+  unfold bind. rewrite (getw_run h1 w c Hf1).
+  rewrite (hi_isroot D h HI w c Hf). destruct (Pos.eqb w root) eqn:Er.
+  - apply Pos.eqb_eq in Er. subst w. cbn. auto.
+  - apply Pos.eqb_neq in Er. inversion Hanc as [a' c' Hf' | a' c' p0 b Hf' Hp' Hap]; subst; [congruence|].
+    rewrite Hf in Hf'. inversion Hf'; subst c'. rewrite Hp'. apply IH; auto.
+Qed.
+
+Lemma request_change_spec : forall D fuel ch w cw h,
+  hinv D h -> findw h w = Some cw -> (w_parent cw = None \/ anc h w root) ->
+  hoare (fun h1 => h1 = h) (request_change fuel ch w)
+        (fun _ h' => hinv D h' /\ wins h' = wins h /\ nextw h' = nextw h).
+Proof.
+  intros D fuel ch w cw h HI Hw Hpre h0 E. subst h0. unfold request_change.
+  unfold bind at 1. rewrite (getw_run h w cw Hw).
+  destruct (w_parent cw) as [p|] eqn:Hwp; [|cbn; auto].
+  destruct Hpre as [Hpre|Hanc]; [discriminate|].
+  unfold bind at 1. unfold allocq.
+  set (q := nextq h).
+  set (cq := mkQ ch (Some p) (Some w) None).
+  set (h1 := mkHeap (wins h) (PM.add q cq (reqs h)) (rx h) (nextw h) (Pos.succ q) (dlog h) (uninit_seen h) (tr h)).
+  assert (Hqfresh : findq h q = None).
+  { destruct (findq h q) eqn:Ef; auto. exfalso. assert (Hl : findq h q <> None) by congruence.
+    pose proof (hi_nextq D h HI q Hl). unfold q in *. lia. }
+  assert (Fw1 : forall a, findw h1 a = findw h a) by reflexivity.
+  assert (Fq1 : forall a, findq h1 a = if Pos.eqb a q then Some cq else findq h a).
+  { intro a. unfold findq, h1. cbn. destruct (Pos.eqb a q) eqn:Ea.
+    - apply Pos.eqb_eq in Ea. subst a. apply PM.gss.
+    - apply Pos.eqb_neq in Ea. apply PM.gso. exact Ea. }
+  (* _get_root does not abort: the window is attached to the root *)
+  assert (Hanc1 : anc h1 w root) by (eapply anc_same_wins; [|exact Hanc]; reflexivity).
+  assert (HIw : forall a b, anc h1 a b -> anc h a b) by (intros a b Ha; eapply anc_same_wins; [|exact Ha]; reflexivity).
+  unfold bind at 1.
+  pose proof (get_root_same_wins D h h1 fuel w HI eq_refl Hanc) as Hgr.
+  destruct (get_root fuel w h1) as [r h2| |]; [|contradiction|exact I].
+  destruct Hgr as [Eh Er]. subst h2 r.
+  pose proof (anc_live_r h w root Hanc) as Hlr. destruct (findw h root) as [cr|] eqn:Hr; [|congruence].
+  assert (Hir : w_isroot cr = true) by (rewrite (hi_isroot D h HI root cr Hr); apply Pos.eqb_refl).
+  unfold bind at 1. rewrite (getr_run h1 root cr Hr Hir).
+  destruct (hi_queue D h HI) as [ql [Hq1 [Hq2 Hq3]]].
+  (* the entry for the new request *)
+  assert (Hnewentry : exists x p0 cx, q_win cq = Some x /\ q_parent cq = Some p0 /\ findw h x = Some cx /\ w_parent cx = Some p0 /\ anc h x root).
+  { exists w, p, cw. auto. }
+  assert (Hfinish : forall h', wins h' = wins h -> nextw h' = nextw h -> r_drag (rx h') = r_drag (rx h) ->
+            nextq h' = Pos.succ (nextq h) ->
+            qchain h' (r_queue (rx h')) (ql ++ [q]) ->
+            (forall a, findq h' a <> None <-> (a = q \/ findq h a <> None)) ->
+            (forall a ca, findq h' a = Some ca -> a = q /\ q_win ca = Some w /\ q_parent ca = Some p \/
+                           exists ca0, findq h a = Some ca0 /\ q_win ca = q_win ca0 /\ q_parent ca = q_parent ca0) ->
+            hinv D h' /\ wins h' = wins h /\ nextw h' = nextw h).
+  { intros h' Hw' Hnw' Hd' Hnq' Hc' Hlive' Hent'. split; [|auto].
+    eapply hinv_set_queue; eauto.
+    - intros a Ha. rewrite Hnq'. apply Hlive' in Ha. destruct Ha as [Ea|Ha]; [subst a; unfold q; lia|].
+      pose proof (hi_nextq D h HI a Ha). lia.
+    - exists (ql ++ [q]). split; [exact Hc'|]. split.
+      + intro a. rewrite Hlive'. rewrite <- Hq2. split; intro Hin.
+        * apply in_app_or in Hin. destruct Hin as [Hin|[Hin|[]]]; auto.
+        * apply in_or_app. destruct Hin; [right; left; auto|left; auto].
+      + intros a ca Hfa. destruct (Hent' a ca Hfa) as [[Ea [Ew Ep]]|[ca0 [H0 [E1 E2]]]].
+        * exists w, p, cw. auto.
+        * destruct (Hq3 a ca0 H0) as [x [p0 [cx [G1 [G2 G3]]]]]. exists x, p0, cx. rewrite E1, E2. auto. }
+  change (rx h1) with (rx h).
+  destruct (r_queue (rx h)) as [hd|] eqn:Hhead.
+  - (* append after the last request *)
+    assert (Hc1 : qchain h1 (Some hd) ql).
+    { eapply qchain_same; eauto. intros a Ha. rewrite Fq1.
+      assert (Haq : a <> q) by (intro Ea; subst a; apply Hq2 in Ha; congruence).
+      apply Pos.eqb_neq in Haq. rewrite Haq. reflexivity. }
+    unfold bind at 1. pose proof (queue_last_spec fuel h1 hd ql Hc1) as Hql.
+    destruct (queue_last fuel hd h1) as [lst h2| |]; [|contradiction|exact I].
+    destruct Hql as [Eh [ql0 Eql]]. subst h2.
+    assert (Hinl : In lst ql) by (rewrite Eql; apply in_or_app; right; left; reflexivity).
+    assert (Hll : findq h lst <> None) by (apply Hq2; exact Hinl).
+    destruct (findq h lst) as [cl|] eqn:Hfl; [|congruence].
+    assert (Hlq : lst <> q) by (intro El; subst lst; congruence).
+    assert (Hfl1 : findq h1 lst = Some cl) by (rewrite Fq1; apply Pos.eqb_neq in Hlq; rewrite Hlq; exact Hfl).
+    unfold bind at 1. rewrite (getq_run h1 lst cl Hfl1).
+    unfold setq. unfold findq in Hfl1. rewrite Hfl1.
+    set (cl' := mkQ (q_change cl) (q_parent cl) (q_win cl) (Some q)).
+    set (h' := mkHeap (wins h1) (PM.add lst cl' (reqs h1)) (rx h1) (nextw h1) (nextq h1) (dlog h1) (uninit_seen h1) (tr h1)).
+    assert (Fq' : forall a, findq h' a = if Pos.eqb a lst then Some cl' else if Pos.eqb a q then Some cq else findq h a).
+    { intro a. unfold findq, h'. cbn. destruct (Pos.eqb a lst) eqn:Ea.
+      - apply Pos.eqb_eq in Ea. subst a. apply PM.gss.
+      - apply Pos.eqb_neq in Ea. rewrite PM.gso by exact Ea. apply Fq1. }
+    apply Hfinish; auto.
+    + change (r_queue (rx h')) with (r_queue (rx h)). rewrite Hhead. rewrite Eql. rewrite <- app_assoc. cbn.
+      rewrite Eql in Hq1.
+      destruct (qchain_prefix_notin h _ ql0 lst [] Hq1) as [Hnl _].
+      eapply qchain_prefix_gen with (cz' := cl'); eauto.
+      * intros a Ha. rewrite Fq'.
+        assert (Hal : a <> lst) by (intro Ea; subst a; contradiction).
+        assert (Haq : a <> q).
+        { intro Ea. subst a. assert (Hin : In q ql) by (rewrite Eql; apply in_or_app; left; exact Ha). apply Hq2 in Hin. congruence. }
+        apply Pos.eqb_neq in Hal. apply Pos.eqb_neq in Haq. rewrite Hal, Haq. reflexivity.
+      * rewrite Fq'. rewrite Pos.eqb_refl. reflexivity.
+      * cbn. econstructor.
+        -- rewrite Fq'. apply Pos.eqb_neq in Hlq. rewrite Pos.eqb_sym. rewrite Hlq. rewrite Pos.eqb_refl. reflexivity.
+        -- cbn. constructor.
+    + intro a. rewrite Fq'. destruct (Pos.eqb a lst) eqn:Ea.
+      * apply Pos.eqb_eq in Ea. subst a. split; [intros _; right; congruence|intros _; discriminate].
+      * destruct (Pos.eqb a q) eqn:Eq.
+        -- apply Pos.eqb_eq in Eq. subst a. split; [auto|intros _; discriminate].
+        -- apply Pos.eqb_neq in Eq. split; [auto|intros [Hx|Hx]; [congruence|exact Hx]].
+    + intros a ca Hfa. rewrite Fq' in Hfa. destruct (Pos.eqb a lst) eqn:Ea.
+      * apply Pos.eqb_eq in Ea. subst a. inversion Hfa; subst ca. right. exists cl. auto.
+      * destruct (Pos.eqb a q) eqn:Eq.
+        -- apply Pos.eqb_eq in Eq. subst a. inversion Hfa; subst ca. left. auto.
+        -- right. eauto.
+  - (* the queue was empty *)
+    inversion Hq1; subst.
+    unfold bind at 1. unfold setr, bind. rewrite (getw_run h1 root cr Hr). rewrite Hir.
+    set (h2 := mkHeap (wins h1) (reqs h1) (set_rqueue (rx h) (Some q)) (nextw h1) (nextq h1) (dlog h1) (uninit_seen h1) (tr h1)).
+    unfold request_later, updr, bind, getr, bind.
+    assert (Hr2 : getw root h2 = Ok cr h2) by (apply getw_run; exact Hr).
+    rewrite Hr2. rewrite Hir. unfold setr, bind. rewrite Hr2. rewrite Hir.
+    match goal with |- hinv D ?hh /\ _ => set (h' := hh) end.
+    apply Hfinish; auto.
+    + cbn. eapply qchain_cons with (c := cq); [|cbn; constructor].
+      change (findq h' q) with (findq h1 q). rewrite Fq1. rewrite Pos.eqb_refl. reflexivity.
+    + intro a. change (findq h' a) with (findq h1 a). rewrite Fq1. destruct (Pos.eqb a q) eqn:Ea.
+      * apply Pos.eqb_eq in Ea. subst a. split; [auto|intros _; discriminate].
+      * apply Pos.eqb_neq in Ea. split; [auto|intros [Hx|Hx]; [congruence|exact Hx]].
+    + intros a ca Hfa. change (findq h' a) with (findq h1 a) in Hfa. rewrite Fq1 in Hfa. destruct (Pos.eqb a q) eqn:Ea.
+      * apply Pos.eqb_eq in Ea. subst a. inversion Hfa; subst ca. left. auto.
+      * right. eauto.
+Qed.
